@@ -230,6 +230,14 @@ def _run(tape, clock):
         if not rec.saved:
             run.violate('recording_saved', 'not-saved', 'fault-free recording was not saved')
             return run
+        # what the recorder put into the recording, before any serializer: exactly what the code sent
+        live = R.live_recorded_outputs(rec)
+        exp_live = expected_outputs(rec.svc, rec.outcome)
+        if live is not None and live != exp_live:
+            wrong = sorted(k for k in set(live) | set(exp_live) if live.get(k) != exp_live.get(k))
+            run.violate('recorded_outputs_equal_sent', 'recorded-live-entries-differ',
+                        'the recording as filled by the recorder differs from what the code sent at %s' % wrong[:4])
+            return run
         if not R.recording_in_faithful_domain(rec):
             run.probe('recording_outside_faithful_domain')
             return run
